@@ -5,6 +5,7 @@
    Reference: RichModel.SpecTextOps (characters with the ordered list of covering styles). *)
 From RichModel Require Import Prelude Cells TextOps SpecTextOps.
 From RichGen Require Import ControlCodes.
+From RichProofs.bridge Require BridgeSpan.   (* tie 1 (T2): Span.split/move/right_crop regenerated from rich/text.py *)
 From RichProofs Require Import TextOpsP TextOpsP2 TextOpsP3 TextOpsP4 TextOpsP5 TextOpsP6 TextOpsP7 TextOpsP8 TextOpsP9 TextOpsP10.
 
 (* (0) the facts of /repo the model was written for *)
